@@ -765,6 +765,20 @@ func FetchWithParallelRangeRequests(client *http.Client, rawURL string, cfg *Fet
 			return
 		}
 
+		// A chunk is only usable if it is exactly the requested byte range.
+		// A server that ignores Range answers 200 with the whole resource:
+		// keep this chunk's slice of it. Anything else of the wrong length
+		// (short, long, or a 200 that is not the whole resource) is a failed
+		// attempt, not chunk data.
+		want := rangeEnd - rangeStart + 1
+		if resp.StatusCode == http.StatusOK && int64(len(data)) == contentLength {
+			data = data[rangeStart : rangeEnd+1]
+		}
+		if int64(len(data)) != want {
+			resultCh <- chunkResult{index: index, err: fmt.Errorf("range request for bytes %d-%d returned %d bytes (status %d)", rangeStart, rangeEnd, len(data), resp.StatusCode), hedge: isHedge}
+			return
+		}
+
 		elapsed := time.Since(start)
 		mu.Lock()
 		completionTimes = append(completionTimes, elapsed)
